@@ -19,9 +19,6 @@ func (r *readerat) ReadAt(p []byte, off int64) (n int, err error) {
 		r.off = off
 	}
 	c, err := r.rs.Read(p)
-	if err != nil {
-		return c, err
-	}
 	r.off += int64(c)
-	return c, nil
+	return c, err
 }
